@@ -125,7 +125,8 @@ def check(tier):
             chk.inconc("%s: %s" % (by_id[lid].meta["site"], r.message[:160]))
         elif r.verdict == "refuted":
             genrt.replay_rule(chk, by_id[lid], r)
-    evolve.run_tiny(chk, ["python", "testdata"], tier, "C06")
+    # quick: python, testdata and rust (the dotnet families - the slowest - are decided by C08 on every change); thorough: all four
+    evolve.run_tiny(chk, ["python", "testdata", "rust"] if tier == "quick" else ["python", "testdata", "rust", "dotnet"], tier, "C06")
     # (2) full evolved metamodels through rust / dotnet / testdata (relations) and python (package-level checks)
     for label, doc in evolve.full_evolutions():
         if label == "identity":
@@ -134,8 +135,8 @@ def check(tier):
             evolve.relations_check(chk, "C06", plugin, doc, label)
     python_package_checks(chk, tier)
     chk.ev.coverage["functions_encoded"] = genrt.rule_function_refs() + [evidence.fn_ref(f) for f in (pyu.TypesCodeGenerator._add_structure, pyu.TypesCodeGenerator._get_dependent_types, pyu.TypesCodeGenerator._add_requests, pyu.TypesCodeGenerator._add_notifications, pyu._get_class_name, pyu._to_class_name, tg.get_all_properties, tg.generate_for_reference, tg.get_name)]
-    chk.ev.coverage["bounds"] = {"tiny metamodels": "python and testdata plugins on the families of C07/C08 (types, names, marks, messages, inheritance graphs, enumerations, anonymous literals)", "full evolved metamodels": "2 (additions: structures with keyword/digit names, mixin chains, enum, proposed/deprecated marks, request and notification without typeName; removals of optional properties + a new enum value), through all four plugins", "package-level checks on each evolved python package": ", ".join(SUBCHECKS_THOROUGH if tier == "thorough" else SUBCHECKS_QUICK)}
-    chk.ev.coverage["outside_bounds"] = ["the unbounded family of edit sequences: only the listed families and 2 full evolutions are decided", "termination/correctness on much larger evolved models", "rust and dotnet tiny families are decided under C07 / C08"]
+    chk.ev.coverage["bounds"] = {"tiny metamodels": "python, testdata and rust plugins (thorough: also dotnet) on the families of C07/C08 (types, names, marks, messages, inheritance graphs, enumerations, anonymous literals)", "full evolved metamodels": "2 (additions: structures with keyword/digit names, mixin chains, enum, proposed/deprecated marks, request and notification without typeName; removals of optional properties + a new enum value), through all four plugins", "package-level checks on each evolved python package": ", ".join(SUBCHECKS_THOROUGH if tier == "thorough" else SUBCHECKS_QUICK)}
+    chk.ev.coverage["outside_bounds"] = ["the unbounded family of edit sequences: only the listed families and 2 full evolutions are decided", "termination/correctness on much larger evolved models", "the dotnet tiny families are decided under C08 in the quick tier"]
     chk.ev.coverage["rule"] = "solver-enumerated flag families over tiny metamodels per plugin; z3 relation queries per (plugin, evolved metamodel); the package-level solver checks re-run against each evolved python package"
     chk.ev.coverage["explanation"] = (
         "C06 quantifies over an unbounded family of programs (metamodels); what is decided is a bounded family: (a) the python plugin's decision functions on a symbolic property (now including the base type RegExp that the schema allows), "
